@@ -428,6 +428,42 @@ func init() {
 		cols := c.Columns(db.OID, t.OID)
 		return cols, c11JSON(cols), len(cols)
 	})
+	// lookups by name, exact and in other letter cases, of every relation of a database: relation names are unique per schema
+	// only and lookups fall back to case-insensitive matching, so several relations can answer to one name; which one is
+	// returned must not change from call to call (seeded change C11-13: the lookup ranged over the catalog map)
+	c11Ops["remote_table_lookup"] = c11Remote(func(c *pgdump.RemoteClient, p []string) (interface{}, string, int) {
+		db := c.Database(c11Str(p[0]))
+		if db == nil {
+			return nil, "nodb", 0
+		}
+		var sb strings.Builder
+		ambiguous := 0
+		seen := map[string]int{}
+		tabs := c.Tables(db.OID)
+		for _, t := range tabs {
+			seen[strings.ToLower(t.Name)]++
+		}
+		for _, n := range seen {
+			if n > 1 {
+				ambiguous++
+			}
+		}
+		for _, t := range tabs {
+			for _, name := range []string{t.Name, strings.ToUpper(t.Name), strings.ToLower(t.Name), strings.Title(strings.ToLower(t.Name))} {
+				got := c.Table(db.OID, name)
+				if got == nil {
+					fmt.Fprintf(&sb, "%s=nil;", name)
+				} else {
+					fmt.Fprintf(&sb, "%s=%d/%d;", name, got.OID, got.Filenode)
+				}
+				q := c.QueryByName(db.Name, name, nil)
+				if q != nil {
+					fmt.Fprintf(&sb, "q%d;", len(q))
+				}
+			}
+		}
+		return nil, sb.String(), ambiguous
+	})
 	c11Ops["remote_summary_string"] = c11Remote(func(c *pgdump.RemoteClient, p []string) (interface{}, string, int) {
 		s := c.Summary()
 		return nil, s.String(), strings.Count(s.String(), ", ") + 1
@@ -513,6 +549,7 @@ func init() {
 		}
 		ptrs := c11Pointers(p)
 		var out []string
+		var held [][]byte
 		// an explicit load under another relation id before every read: on the persistent reader the chunk map is
 		// written while other calls (other goroutines in Concurrent) read it
 		if raw, ok := st.env.files["base/"+p[0]+"/"+p[1]]; ok {
@@ -526,7 +563,17 @@ func init() {
 				return "MUTATED-INPUT", 0
 			}
 			out = append(out, fmt.Sprintf("%x", v))
-			for i := range v { // scribble over the value handed out
+			held = append(held, v)
+		}
+		// every value handed out is held until all reads are done: a later read must not rewrite an earlier result
+		// (seeded change C11-14: the values shared a recycled buffer)
+		for i, v := range held {
+			if fmt.Sprintf("%x", v) != out[i] {
+				return "SHARED-STATE:a later read rewrote an earlier result", len(ptrs)
+			}
+		}
+		for _, v := range held {
+			for i := range v { // scribble over the values handed out
 				v[i] = 0xEE
 			}
 		}
